@@ -74,12 +74,12 @@ def clean_turn(rng, cfg, k):
     return t
 
 
-def fits(ver, dialog, n_in, n_out):
+def fits(ver, dialog, n_in, n_out, sc=False):
     """Colang 1.0 stops a turn with `Exception("Too many events.")` after 100 new events; a scripted rail
     costs ~12 events, so configurations are kept below the cap (see design notes)."""
     if ver != "1.0":
         return True
-    return n_in + n_out <= (4 if dialog else 5)
+    return n_in + n_out + (1 if sc else 0) <= (4 if dialog else 5)
 
 
 def gen_cfg(rng, max_rails=3):
@@ -98,6 +98,27 @@ def all_cfgs(rail_shapes, carries=("messages",)):
         for ins, outs in rail_shapes:
             for carry in (carries if ver == "1.0" else ("state",)):
                 yield {"ver": ver, "dialog": dialog, "exc": exc, "in": list(ins), "out": list(outs), "carry": carry}
+
+
+SC_ID = P.SC_ID
+
+
+def eff_in(case):
+    """Configured input rails in order (the shipped `self check input` is rail SC_ID, configured last)."""
+    return list(case["in"]) + ([SC_ID] if case.get("sc") else [])
+
+
+def eff_out(case):
+    return list(case["out"]) + ([SC_ID] if case.get("sc") else [])
+
+
+def add_selfcheck(rng, cfg, p_block=0.3):
+    """Turn a generated case into one that also configures the shipped self-check rails (verdicts accept / reject)."""
+    cfg["sc"] = True
+    for t in cfg["turns"]:
+        t["vin"] = [e for e in t["vin"] if e[0] != SC_ID] + [[SC_ID, "r" if rng.random() < p_block * 0.5 else "a"]]
+        t["vout"] = [e for e in t["vout"] if e[0] != SC_ID] + [[SC_ID, "r" if rng.random() < p_block else "a"]]
+    return cfg
 
 
 def sort_cases(cases):
@@ -119,7 +140,7 @@ def model_requests(case, obs, method="C01.conv"):
     return [{
         "m": method,
         "ver": case["ver"],
-        "cfg": {"in": case["in"], "out": case["out"], "dialog": bool(case["dialog"]), "exc": bool(case["exc"]),
+        "cfg": {"in": case["in"], "out": case["out"], "dialog": bool(case["dialog"]), "exc": bool(case["exc"]), "sc": bool(case.get("sc")),
                 "nostop_in": case.get("nostop_in", []), "nostop_out": case.get("nostop_out", [])},
         "turns": [{"user": t["user"], "bot": t["bot"], "intent": t.get("intent", "free"), "vin": t.get("vin", []), "vout": t.get("vout", []),
                    "act_fault": bool(t.get("act_fault")), "retr_fault": bool(t.get("retr_fault"))} for t in case["turns"]],
@@ -207,7 +228,7 @@ def reply_text(rep):
 # ------------------------------------------------------------------ distribution
 
 def tags(case, obs):
-    t = [f"ver:{case['ver']}", f"dialog:{int(bool(case['dialog']))}", f"exc:{int(bool(case['exc']))}", f"n_in:{len(case['in'])}", f"n_out:{len(case['out'])}",
+    t = [f"ver:{case['ver']}", f"dialog:{int(bool(case['dialog']))}", f"exc:{int(bool(case['exc']))}", f"n_in:{len(eff_in(case))}", f"n_out:{len(eff_out(case))}", f"selfcheck:{int(bool(case.get('sc')))}",
          f"turns:{len(case['turns'])}", f"carry:{case.get('carry')}"]
     for tc, to in zip(case["turns"], obs["turns"]):
         for kind in ("in", "out"):
@@ -236,7 +257,7 @@ def tags(case, obs):
 
 def nontrivial(case, obs):
     """At least one rail, and at least one invoked rail did something other than accept (or >= 2 turns)."""
-    if not case["in"] and not case["out"]:
+    if not eff_in(case) and not eff_out(case):
         return False
     for tc, to in zip(case["turns"], obs["turns"]):
         for kind in ("in", "out"):
@@ -297,14 +318,25 @@ def after_output_block_v2(case, obs, k):
 
 SIG_STALE = "v1-stale-context-after-hidden-turn"
 SIG_FLAG = "v2-output-rails-skipped-after-abort"
+SIG_SC = "self-check-output-continues-after-exception"
 
 
-def region_signature(case, obs, msg, oracle_codes_stale=(), oracle_codes_flag=()):
+def selfcheck_output_blocked_in_exception_mode(case, obs, k):
+    """exception mode, and in the failing turn the shipped `self check output` rail was invoked and rejected"""
+    if not (case.get("sc") and case["exc"]) or k is None or k >= len(obs["turns"]):
+        return False
+    tc, to = case["turns"][k], obs["turns"][k]
+    return any(s[2] == SC_ID and verdict_of(tc, "out", SC_ID) == "r" for s in rail_calls(to, "out"))
+
+
+def region_signature(case, obs, msg, oracle_codes_stale=(), oracle_codes_flag=(), oracle_codes_sc=()):
     """Structural signature of a failing case: which recorded defect region (if any) it lies in.
     `msg` starts with "turn N: [code] …" for oracle failures; comparison failures carry no code."""
     k = failing_turn(msg)
     m = _re.match(r"turn \d+: \[([a-z-]+)\]", msg or "")
     code = m.group(1) if m else None
+    if selfcheck_output_blocked_in_exception_mode(case, obs, k) and code is not None and code in oracle_codes_sc:
+        return SIG_SC
     if after_hidden_turn_v1(case, obs, k) and (code is None or code in oracle_codes_stale):
         return SIG_STALE
     if after_output_block_v2(case, obs, k) and (code is None or code in oracle_codes_flag):
